@@ -132,13 +132,15 @@ def atom_text(q):
 def atom_api(q):
     from chython.periodictable import QueryElement, ListElement, AnyElement, AnyMetal
     el = q['el']
-    hyb = None if q['z'] is None else (4 if q['z'] == 'a' else tuple(q['z']))
-    nb = None if q['D'] is None else tuple(q['D'])
+    def one(v):  # a single value is given as a plain int (the documented scalar form), several as a tuple
+        return v[0] if len(v) == 1 else tuple(v)
+    hyb = None if q['z'] is None else (4 if q['z'] == 'a' else one(q['z']))
+    nb = None if q['D'] is None else one(q['D'])
     if el[0] == 'metal':
         return AnyMetal(neighbors=nb, hybridization=hyb)
     kw = dict(charge=q['charge'] or 0, is_radical=q['radical'], neighbors=nb, hybridization=hyb,
-              heteroatoms=None if q['x'] is None else tuple(q['x']),
-              implicit_hydrogens=None if q['h'] is None else tuple(q['h']),
+              heteroatoms=None if q['x'] is None else one(q['x']),
+              implicit_hydrogens=None if q['h'] is None else one(q['h']),
               ring_sizes=None if q['r'] is None else (0 if q['r'] == '!R' else tuple(q['r'])))
     if el[0] == 'sym':
         return QueryElement.from_symbol(el[1])(q['iso'], **kw)
